@@ -16,6 +16,11 @@ Proof. reflexivity. Qed.
 Lemma gen_dialogue_repaired : dialogue_repaired gen_fixes.
 Proof. repeat split; reflexivity. Qed.
 
+(* smtp.go: STARTTLS expects 220 (part of gen_expects_std) and StartTLS ends with c.ehlo(); smtp_ehlo.go: the
+   extension map is assigned unconditionally after an accepted EHLO (part of gen_dialogue_repaired) *)
+Lemma gen_starttls_says_ehlo : Gen.starttls_says_ehlo = true.
+Proof. reflexivity. Qed.
+
 (* senderror.go: isTempError unwraps; the enhanced status code is only looked for at the start of the text *)
 Lemma gen_temp_unwraps : fx_temp_unwrap gen_fixes = true.
 Proof. reflexivity. Qed.
